@@ -40,6 +40,16 @@ T = {
  'C16': dict(design='4/C16', technique='property-based testing of the network transformers: structural quotient-isomorphism oracle (union-find), deep snapshots, exact electrical reference',
              text='Generated networks augmented with shorts by node splitting (chains, stars, parallel shorts, loops, shorts at the reference) and opens x 7 operations x exemption lists; surviving branches must keep id/record/orientation within their node class, nothing else may vanish, no node may split or merge, input and exemption list stay untouched, and the library\'s solution / port impedance of the simplified network must equal the exact solution of the original.',
              note='Exemption lists contain sources and shorts; results that still contain a zero-impedance loop (stale short next to an exempted one) are only judged structurally; leaving a contractible short in place is not a violation (electrically exact).'),
+
+ 'C10': dict(design='4/C10', technique='property-based differential testing of the state-space realisation against the exact phasor response per source, with an exact rational domain test',
+             text='Generated RLC + ideal-source circuits (skeleton and ladder generators, adversarial names and listing orders), accepted iff two exact determinants show full degree and no root at s=0; for every source, every potential/voltage/current row and 13 frequencies the model\'s transfer function is compared with the exact phasor solution of the circuit driven by that source alone; DC gain against the exact DC solution; state dimension, published source order, wrapper stacking via transfer matrices.',
+             note='Trusts vlib/dynamic.py + refsolve.py; frequencies with cond(jwI-A_ref) > 1e8 or a singular phasor network are skipped; tolerance 1e-5 of the natural scale (matrix inverses in the builder).'),
+ 'C11': dict(design='4/C11', technique='property-based testing of an energy invariant: eigenvalues of sym(W*A) and of A, and monotone stored energy of simulated pulse responses',
+             text='Generated circuits in the exact domain of C10 with positive R, C, L: the symmetric part of W*A (W from the generated values in the published state order) must be negative semidefinite, natural frequencies must lie in the closed left half plane, and the energy computed from the simulated capacitor voltages / inductor currents must not increase after the excitation pulses have ended.',
+             note='The exact reference model is checked against the same inequality on every case (guards the oracle); slack 1e-9 of the matrix/energy scale.'),
+ 'C12': dict(design='4/C12', technique='property-based differential testing of transient simulation against the exact first-order-hold response of an independently derived exact state-space model + algebraic circuit-law residuals',
+             text='Generated circuits x piecewise-linear source waveforms with grid break points x uniform grids resolving the fastest time constant; every potential, voltage and current series is compared sample by sample with the exact discrete response; start from rest, KCL, Ohm, v=phi1-phi2, C dv/dt and L di/dt as algebraic residuals against the reference ODE, power=v*i; constant inputs must settle to the DC solution and sinusoidal inputs to the phasor steady state.',
+             note='Trusts scipy.linalg.expm for the Van Loan discretisation of the exact model (the library uses scipy.signal.lsim); cond(A_ref) <= 1e8; settling comparisons use 2e-3 / 5e-3 of the signal scale.'),
 }
 
 DEFAULT_LEVEL = 'exploration'
